@@ -396,6 +396,10 @@ Next == \/ \E c \in Cmds : Do(c)
 
 Spec == Init /\ [][Next]_vars
 
+\* State constraint of Conn_c05.cfg: the data dimension is explored in the
+\* configuration without TLS only (TLS plays no role once authenticated)
+DataOnlyWithoutTls == tls => (boxes = {} /\ ~fl /\ ~grew)
+
 \* The same clauses as temporal formulas over the unchecked actions (slower
 \* for TLC: checked in the thorough tier)
 CommandClauses == [][\A c \in Cmds : IDo(c) => CmdClauses(c)]_vars
